@@ -626,6 +626,7 @@ func famTyped(dir string, seed int64, tier string) {
 	typedRegisteredMarshaler(repM, repU)
 	typedRegistrationOrder(repM, repU)
 	typedEmbedded(repU)
+	typedEmbeddedPtr(repU)
 	typedDualHook(repU)
 	typedDeprecationMemo(repU)
 	typedMore(dir, seed, tier, repU, wU)
